@@ -260,16 +260,16 @@ def _make_p1(param):
     expr = EXPRS[eidx]
     two_vars = "s" in expr
 
-    def p1(x: int, tv: List[int], sv: List[int], by_pos: bool, broadcast: bool, b_cfg: int, b_ctx: int, b_in_cfg: bool, b_in_ctx: bool, sv_in_ctx: bool):
+    def p1(x: int, tv: List[int], sv: List[int], by_pos: bool, broadcast: bool, b_cfg: int, b_ctx: int, b_in_cfg: bool, b_in_ctx: bool, sv_in_ctx: bool, stale: bool):
         from vt.engine import assume
 
         assume(1 <= len(tv) <= maxlen and 1 <= len(sv) <= maxlen)
-        return _p1_body(kind, expr, two_vars, x, list(tv), list(sv), by_pos, broadcast, b_cfg, b_ctx, b_in_cfg, b_in_ctx, sv_in_ctx)
+        return _p1_body(kind, expr, two_vars, x, list(tv), list(sv), by_pos, broadcast, b_cfg, b_ctx, b_in_cfg, b_in_ctx, sv_in_ctx, True if stale else False)
 
     return p1
 
 
-def _p1_body(kind, expr, two_vars, x, tv, sv, by_pos, broadcast, b_cfg, b_ctx, b_in_cfg, b_in_ctx, sv_in_ctx):
+def _p1_body(kind, expr, two_vars, x, tv, sv, by_pos, broadcast, b_cfg, b_ctx, b_in_cfg, b_in_ctx, sv_in_ctx, stale=False):
     from semantiva.data_types import NoDataType
     from vt import lib
 
@@ -280,6 +280,9 @@ def _p1_body(kind, expr, two_vars, x, tv, sv, by_pos, broadcast, b_cfg, b_ctx, b
         ctx["sv"] = list(sv)
     if kind == "op" and b_in_ctx:
         ctx["b"] = b_ctx
+    if stale:
+        # the context already carries <var>_values from something earlier: the sweep publishes ITS materialised sequence
+        ctx["t_values"] = [x, x]
     data = NoDataType() if kind == "src" else lib.IntData(x)
     seqs = {"t": list(tv)}
     if two_vars:
@@ -344,7 +347,7 @@ def _p1_body(kind, expr, two_vars, x, tv, sv, by_pos, broadcast, b_cfg, b_ctx, b
 def _replay_p1(param, a):
     kind, eidx, maxlen = param
     expr = EXPRS[eidx]
-    v = _p1_body(kind, expr, "s" in expr, a["x"], list(a["tv"]), list(a["sv"]), a["by_pos"], a["broadcast"], a["b_cfg"], a["b_ctx"], a["b_in_cfg"], a["b_in_ctx"], a["sv_in_ctx"])
+    v = _p1_body(kind, expr, "s" in expr, a["x"], list(a["tv"]), list(a["sv"]), a["by_pos"], a["broadcast"], a["b_cfg"], a["b_ctx"], a["b_in_cfg"], a["b_in_ctx"], a["sv_in_ctx"], a.get("stale", False))
     if v is True:
         return {"reproduced": False, "fingerprint": "", "detail": "documented behaviour on the concrete input"}
     return {"reproduced": True, "fingerprint": v.fingerprint, "detail": v.detail}
@@ -401,7 +404,7 @@ def obligations(tier: str) -> List[Ob]:
         Ob("C03.U3", lambda _p: _u3, R(_u3), budget=120, bound="two parameter names, each present/absent in node-provided and computed mappings (4 flags), values symbolic over int | None", targets=["semantiva/data_processors/parametric_sweep_factory.py:_merge_call_parameters"]),
         Ob("C03.U4", lambda _p: _u4, R(_u4), budget=120, bound="8 variable-spec shapes (list, [lo,hi], {lo,hi,steps,endpoint}, {values}, {from_context}, 3 illegal) with symbolic numbers", targets=["semantiva/pipeline/node_preprocess.py:_convert_var_specs"]),
         Ob("C03.P1", _make_p1, _replay_p1, params=p1_params, budget=600 if not big else 1800, per_path=60,
-           bound="3 wrapped kinds x 5 expressions; payload, sequences t (config) and s (from_context) symbolic lists of length 1..%d, mode/broadcast symbolic, non-swept parameter b placed by symbolic flags in config/context/default, from_context key present or not" % (2 if not big else 3),
+           bound="3 wrapped kinds x 5 expressions; payload, sequences t (config) and s (from_context) symbolic lists of length 1..%d, mode/broadcast symbolic, non-swept parameter b placed by symbolic flags in config/context/default, from_context key present or not, a stale t_values already in the context or not" % (2 if not big else 3),
            targets=["semantiva/data_processors/parametric_sweep_factory.py:ParametricSweepFactory.create", "semantiva/pipeline/node_preprocess.py:preprocess_node_config", "semantiva/data_processors/parametric_sweep_factory.py:_merge_call_parameters", "semantiva/data_processors/parametric_sweep_factory.py:_publish_created_context", "semantiva/utils/safe_eval.py:ExpressionEvaluator.compile"], stubs=list(STUBS)),
         Ob("C03.P2", lambda _p: _p2, lambda _p, a: _wrap(_p2_body(a["x"], list(a["tv"]), a["add"], a["by_pos"])), budget=400, per_path=60,
            bound="6-node pipeline around an operation sweep (slicer, fold, probe, downstream probe-sweep over from_context t_values); payload, sequence (len 1..3), slicer parameter symbolic", targets=["semantiva/pipeline/nodes/nodes.py:_DataNode._process_single_item_with_context"], stubs=list(STUBS)),
